@@ -55,7 +55,7 @@ def lifecycle(name, doc, eq, rounds=ROUNDS, sig_prefix='B2', feat=''):
     ev = []
     scales = {}
     ends = None
-    cur = doc
+    doc = cur = du.as_loadable(doc)
     stage = 'first-design'
     try:
         for k in range(rounds + 1):
@@ -82,7 +82,7 @@ def lifecycle(name, doc, eq, rounds=ROUNDS, sig_prefix='B2', feat=''):
                 # to 1e-6 dB by the export, one micro-dB per amplifier crossed is allowed on top of Tol
                 slack = _amps_on(net, ends) if k == 1 else 0
                 ev.append(dict(op='Propagate', r=vec, slack=slack))
-            cur = json.loads(text)
+            cur = du.as_loadable(json.loads(text))
     except Exception as e:                                     # noqa
         msg, tb = du.exc_text(e)
         if stage != 'first-design':                            # a crash of the very first design is C08's finding
@@ -115,7 +115,9 @@ def judge(traces, chk, tag, batch=60):
     for k in range(0, len(traces), batch):
         part = traces[k:k + batch]
         data = '\n'.join(json.dumps({a: b for a, b in t.items() if not a.startswith('_')}) for t in part) + '\n'
-        res = tlc.run('Trace_Design', extra_files={'trace.ndjson': data}, env={'TRACE_FILE': 'trace.ndjson'},
+        # chains of several hundred elements (CORONET) are walked recursively: give the JVM threads a deep stack
+        res = tlc.run('Trace_Design', extra_files={'trace.ndjson': data},
+                      env={'TRACE_FILE': 'trace.ndjson', 'JAVA_TOOL_OPTIONS': '-Xss512m'},
                       workers=min(4, len(part)), timeout=3000, tag=tag)
         if not res.ok:
             raise Machinery(f'trace validation run failed: {res.error or res.violated}\n{res.out[-2500:]}')
@@ -182,6 +184,8 @@ def run(chk):
     # 2-ROADM shape: every chain kind x (quick: the strength-3 half fraction of the 16 settings | thorough: all 16);
     # larger shapes: every stride-th case
     picked = [c for c in two if tier == 'thorough' or settings_l8(c)] + more[chk.seed % stride::stride]
+    if tier == 'quick':       # a surviving Raman life cycle costs ~3 s (5 Raman estimations + 4 Raman propagations)
+        picked = [c for c in picked if not any(e['t'] == 'RamanFiber' for e in c['g']) or c['s']['maxLen'] > 100000]
     du.reset_sim()
     traces = []
     for c, (tr, viol) in zip(picked, du.parallel_map(_b2_one, picked)):
@@ -230,17 +234,22 @@ def run(chk):
     chk.sample(dict(kind='B3 life cycle of a shipped network', network=t3[0]['name'], events=[e['op'] for e in t3[0]['ev']],
                     propagation=[e['r'] for e in t3[0]['ev'] if e['op'] == 'Propagate'], verdict=v3[t3[0]['name']]['viol']))
     chk.cov['clauses'] = CLAUSES
-    chk.cov['tolerance_udb'] = 3
+    chk.cov['rule'] = ('cases = life cycles (design, twin design, 3 x export/reload/redesign, 4 reference propagations) of '
+                       'TLC-enumerated topologies x Span settings and of the shipped networks, plus SimParams settings '
+                       'enumerated by TLC replayed around designed_network on Raman topologies; non-trivial = the life '
+                       'cycle ran to the end (or a SimParams replay); distinct by chain composition + settings / file / '
+                       'SimParams record')
+    chk.cov['tolerance_udb'] = 10
     chk.cov['measured_max_export_deviation_udb'] = measured(traces + t3, 'Export')
     chk.cov['measured_max_propagation_deviation_udb'] = measured(traces + t3, 'Propagate')
     chk.assume('domain: the topologies and Span settings enumerated for C08; 2-ROADM shape: every chain kind x the '
                'strength-3 half fraction of the 16 Span settings (quick) / all 16 (thorough); 3-4 ROADM shapes: every '
                '7th (quick) / 5th (thorough) case; SI of eqpt_config.json; exports pass through JSON text')
-    chk.assume('export comparison: same elements (uid, type), same string leaves, numeric leaves within 3 micro units '
+    chk.assume('export comparison: same elements (uid, type), same string leaves, numeric leaves within 10 micro units '
                '(micro-dB for every dB quantity), same connections; the twin design must be identical')
     chk.assume('reference propagation: SI comb between the first connected transceiver pair, GSNR/OSNR/power of first, '
-               'middle, last channel; d1 vs reloaded d2 is allowed 1 micro-dB per amplifier crossed on top of 3 '
-               '(the export rounds gains to 1e-6 dB), later rounds 3 micro-dB')
+               'middle, last channel; d1 vs reloaded d2 is allowed 1 micro-dB per amplifier crossed on top of 10 '
+               '(the export rounds gains to 1e-6 dB: <= 0.5 micro-dB each), later rounds 10 micro-dB')
     chk.assume('SimParams snapshots compare flag, method, order, both resolutions, NLI method, tolerances, '
                'computed_channels, computed_number_of_channels by value')
     chk.cov['wall_s_python'] = round(time.time() - t0, 1)
